@@ -504,6 +504,14 @@ func (c *bufioConn) UnderlyingConn() net.Conn {
 	return c.Conn
 }
 
+// CloseWrite passes a write-shutdown through to the wrapped connection.
+func (c *bufioConn) CloseWrite() error {
+	if wc, ok := c.Conn.(WriteCloser); ok {
+		return wc.CloseWrite()
+	}
+	return nil
+}
+
 func (c *bufioConn) TakeRelaySegments() [][]byte {
 	prefix := c.TakeRelayPrefix()
 	if len(prefix) == 0 {
